@@ -328,3 +328,22 @@ Theorem C11_unbuffered_fair_delivery_false :
        exists j, (k <= j)%nat /\ udelivers run lab j x).
 Proof. exact unbuffered_fair_delivery_false. Qed.
 Print Assumptions C11_unbuffered_fair_delivery_false.
+
+(** The statement also discriminates against "wake only on the empty ->
+    non-empty transition, sampled in a separate critical section" ([tstep]:
+    the producer's extra step [wake := q.Len() == 0] between closed check and
+    locked insert, token sent only if [ok && wake]): a run, fair for the
+    consumer and every producer, in which Insert(2) completes and 2 is never
+    delivered (the consumer drained the queue and parked between the sample
+    and the insert). *)
+Theorem C11_transition_wake_delivery_refuted :
+  exists run lab,
+    run 0%nat = t_init /\ is_run tstep run lab /\
+    wfair tstep run lab cons_label /\
+    (forall n, wfair tstep run lab (fun l => l = LP n)) /\
+    lab 10%nat = Some (LP 0) /\ l_pp (t_s (run 10%nat)) 0%nat = PChecked 2 /\
+    lab 11%nat = Some (LP 0) /\ (exists b, l_pp (t_s (run 11%nat)) 0%nat = PInserted 2 b) /\
+    (forall j, (11 <= j)%nat -> q_queue (l_q (t_s (run j))) = [2]) /\
+    (forall j, ~ tdelivers run lab j 2).
+Proof. exact transition_wake_delivery_refuted. Qed.
+Print Assumptions C11_transition_wake_delivery_refuted.
